@@ -39,7 +39,9 @@ func ScanReader(nshard int, reader func() (io.ReadCloser, error)) Slice {
 			}
 			state.Scanner = bufio.NewScanner(rc)
 			state.Closer = rc
-			if err := skip(state.Scanner, shard); err != nil {
+			// Advance to the shard's first line: line number shard (0-based)
+			// is reached by shard+1 scans.
+			if err := skip(state.Scanner, shard+1); err != nil {
 				return 0, err
 			}
 		}
